@@ -364,6 +364,16 @@ theorem foldl_effectI {β : Type} {P} (f : State → β → State) (Q : β → S
       exact hstab _ _ x (foldl_clean f hf t _ (hf s x hs).1).2 (hest s x hs h0 hi)
     · exact ih _ (hf s y hs).1 (h0.trans (hf s y hs).2) (hI s y hi) x hx
 
+theorem abortOne_sp (s : State) (i) : (abortOne s i).sp = s.sp := by
+  unfold abortOne
+  split
+  · rfl
+  · split
+    · rfl
+    · split
+      · rfl
+      · unfold invalidate; split <;> rfl
+
 theorem abortOne_creating (s : State) (i) : (abortOne s i).creating = s.creating := by
   unfold abortOne
   split
@@ -379,17 +389,20 @@ theorem abortOne_creating (s : State) (i) : (abortOne s i).creating = s.creating
 theorem abortObjs_effect {s} (h : Str [] s) :
     ∀ i ∈ s.registered, ∀ k, (s.objs i).oid = some k →
       (s.added.get k = some i → ((abortObjs s).objs i).oid = none) ∧
-      (s.added.get k = none → s.creating.has k = false →
+      (s.added.get k = none → s.creating.has k = false → tmpCreated s k = false →
         ((abortObjs s).objs i).status = .ghost ∨ ((abortObjs s).objs i).oid = none) := by
   intro i hi k hk
   have := foldl_effectI (P := []) abortOne
     (fun i t => ∀ k, (s.objs i).oid = some k →
       (s.added.get k = some i → (t.objs i).oid = none) ∧
-      (s.added.get k = none → s.creating.has k = false → (t.objs i).status = .ghost ∨ (t.objs i).oid = none))
-    (fun t => t.creating = s.creating)
-    (fun _ k h => abortOne_clean h k) (fun t x hI => by rw [abortOne_creating]; exact hI) s
+      (s.added.get k = none → s.creating.has k = false → tmpCreated s k = false →
+        (t.objs i).status = .ghost ∨ (t.objs i).oid = none))
+    (fun t => t.creating = s.creating ∧ t.sp = s.sp)
+    (fun _ k h => abortOne_clean h k)
+    (fun t x hI => by rw [abortOne_creating, abortOne_sp]; exact hI) s
     (by
-      intro t i ht hsh hcr k hk
+      intro t i ht hsh hcrsp k hk
+      obtain ⟨hcr, hspe⟩ := hcrsp
       have hoid := hsh.oid i
       rw [hk] at hoid
       unfold abortOne
@@ -408,14 +421,16 @@ theorem abortObjs_effect {s} (h : Str [] s) :
           have hhas : t.added.has k = true := by rw [Map.has_iff, this]; simp
           rw [if_pos hhas]
           simp [disown, setO]
-        · intro ha hncr
+        · intro ha hncr hntc
           have hnone : t.added.get k = none := by
             cases hc : t.added.get k with
             | none => rfl
             | some j => have := hsh.added k j hc; rw [ha] at this; cases this
           have hhas : ¬ t.added.has k = true := by rw [Map.has_iff, hnone]; simp
           rw [if_neg hhas]
-          have hcr' : ¬ t.creating.has k = true := by rw [hcr, hncr]; simp
+          have hcr' : ¬ (t.creating.has k || tmpCreated t k) = true := by
+            have : tmpCreated t k = tmpCreated s k := by unfold tmpCreated; rw [hspe]
+            rw [hcr, hncr, this, hntc]; simp
           rw [if_neg hcr']
           rcases hkn with h1 | h1
           · left
@@ -424,7 +439,7 @@ theorem abortObjs_effect {s} (h : Str [] s) :
             simp [setO]
           · rw [hnone] at h1; cases h1
       · rw [hoid.1]
-        exact ⟨fun _ => hoid.1, fun _ _ => Or.inr hoid.1⟩)
+        exact ⟨fun _ => hoid.1, fun _ _ _ => Or.inr hoid.1⟩)
     (by
       intro t t' i hsh hq k hk
       obtain ⟨h1, h2⟩ := hq k hk
@@ -432,11 +447,11 @@ theorem abortObjs_effect {s} (h : Str [] s) :
       · intro ha
         have := hsh.noneKept i (h1 ha)
         rw [this]; exact h1 ha
-      · intro ha hncr
-        rcases h2 ha hncr with h3 | h3
+      · intro ha hncr hntc
+        rcases h2 ha hncr hntc with h3 | h3
         · exact Or.inl (hsh.ghostKept i h3)
         · right; rw [hsh.noneKept i h3]; exact h3)
-    s.registered s h (Shrink.refl s) rfl i hi
+    s.registered s h (Shrink.refl s) ⟨rfl, rfl⟩ i hi
   exact this k hk
 
 end Proofs.Conn
